@@ -17,7 +17,7 @@ from harness.lib.core import Rng
 
 PROTO_NAMES = {"none": "none", "tcp": "tcp", "udp": "udp", "icmp": "icmp"}
 SVC_REQS = ["scan", "stop", "start", "pause", "resume", "restart", "disable", "enable", "fix", "compromise"]
-APP_REQS = ["scan", "close", "fix", "compromise"]
+APP_REQS = ["scan", "close", "execute", "fix", "compromise"]
 SVC_EVS = ["start", "stop", "pause", "resume", "restart", "disable", "enable", "scan", "fix", "compromise"]
 APP_EVS = ["run", "close", "install", "scan", "fix", "compromise"]
 HEALTHS = ["GOOD", "GOOD", "GOOD", "UNUSED", "COMPROMISED", "OVERWHELMED"]
@@ -224,7 +224,8 @@ class Impl:
         if g is None:
             raise RuntimeError(f"class {type(obj).__name__} missing from the Gen class table")
         ctor_runs = isinstance(obj, Application) and type(obj).__name__ in CTOR_RUNS
-        return f"{1 if g else 0}{1 if ctor_runs else 0}{0 if type(obj).__name__ in NO_BASE_ROUTES else 1}"
+        return (f"{1 if g else 0}{1 if ctor_runs else 0}{0 if type(obj).__name__ in NO_BASE_ROUTES else 1}"
+                f"{0 if type(obj).__name__ in OWN_EXECUTE else 1}")
 
     def _install_line(self, obj, listen, health, fix) -> str:
         from primaite.simulator.system.applications.application import Application
@@ -331,7 +332,7 @@ class Impl:
                 r = node.apply_request(["software_manager", "application", "install", name])
                 ans = r.status
             except KeyError:
-                ans = "raised"
+                ans = "raised"  # (before the request-layer repair an unknown name raised; now it answers failure)
             new = [o for o in list(node.services.values()) + list(node.applications.values()) if id(o) not in before]
             for o in new:
                 self._adopt(o)
@@ -357,6 +358,11 @@ class Impl:
         if k == "areq":
             if not op["name"]:
                 return None, None
+            if op["r"] == "execute":
+                rt = node._application_request_manager.request_types.get(op["name"])
+                target = next((o for o in self.objs if rt is not None and o._request_manager is rt.func), None)
+                if target is not None and type(target).__name__ in OWN_EXECUTE:
+                    return None, None  # the class's own operation (web browsing, attacks, queries): outside the lifecycle model
             r = node.apply_request(["application", op["name"], op["r"]])
             return r.status, f"areq {_w(op['name'])} {op['r']}"
         if k in ("sapi", "aapi", "sdur"):
@@ -464,6 +470,7 @@ class Impl:
                      icmp=ICMPPacket(), payload=payload)
 
 
+OWN_EXECUTE: set = set()     # application classes that register their own `execute` (class-specific operation, not modelled)
 NO_BASE_ROUTES: set = set()  # classes whose request manager does not start from super()'s (Gen table)
 CTOR_RUNS: set = set()   # application classes whose __init__ calls self.run(); filled from the Gen table by props/c13.py
 
